@@ -28,6 +28,10 @@ def code_canon(c: str) -> str:
     return c
 
 
+def _raw(children) -> str:
+    return children if isinstance(children, str) else "".join(_raw(getattr(k, "children", "")) for k in children)
+
+
 def _title(t):
     """a title up to runs of whitespace: reflowing a paragraph may move a line break into or out of a multi-word title"""
     return norm_ws(t) if isinstance(t, str) else t
@@ -83,9 +87,9 @@ def inl_m(children):
             elif n == "Image":
                 out.append(("img", c.dest, _title(c.title), inl_m(c.children)))
             elif n == "AutoLink":
-                out.append(("auto", c.dest))
+                out.append(("auto", c.dest, _raw(c.children)))           # destination and the text as written (<joe@x.y> has dest mailto:joe@x.y)
             elif n == "Url":
-                out.append(("url", c.dest))
+                out.append(("url", c.dest, _raw(c.children)))
             elif n == "FootnoteRef":
                 out.append(("fnref", c.label))
             else:
@@ -180,7 +184,7 @@ def inl_i(nodes):
             out.append(("Strikethrough", inl_i(n.children)))
         elif t == "link":
             if n.markup == "autolink":
-                out.append(("auto", n.attrs["href"]))
+                out.append(("auto", n.attrs["href"], "".join(k.content for k in n.children)))
             else:
                 out.append(("link", n.attrs["href"], _title(n.attrs.get("title")), inl_i(n.children)))
         elif t == "image":
